@@ -15,6 +15,7 @@ import (
 
 	. "verif/harness/kit"
 
+	"github.com/skycoin/skycoin/src/cipher"
 	"github.com/skycoin/skycoin/src/coin"
 	"github.com/skycoin/skycoin/src/util/fee"
 )
@@ -269,4 +270,60 @@ func runLoops(r *Rng, n int, o *Out, hist Hist, caseJSON map[string][]map[string
 		hist.Add(fmt.Sprintf("loops:VerifyTransactionFee:%s panic=%v", short(vtfE), pVtf))
 	}
 	o.Def("cases_loops", "Z * list (Z * Z * Z) * list (Z * Z) * res (Z * error) * res (Z * error) * res (Z * error) * res error * res error * res (Z * error) * Z * Z * res error", cases)
+}
+
+// runTruncate: coin.Transactions.TruncateBytesTo (Gen/CoinTruncate.v). The
+// projection of a transaction is what txns[i].Size() returns (value, error) —
+// computed here by calling Size() on each element; the observable is how many
+// transactions are kept and the error.
+func runTruncate(r *Rng, n int, o *Out, hist Hist, caseJSON map[string][]map[string]interface{}) {
+	var cases []string
+	big := coin.Transaction{In: make([]cipher.SHA256, 65536)} // Size() fails: maxlen exceeded
+	for ci := 0; ci < n; ci++ {
+		k := 1 + r.Intn(6)
+		if r.Chance(5) {
+			k = 0
+		}
+		txns := make(coin.Transactions, k)
+		for i := range txns {
+			ni := 1 + r.Intn(6)
+			txns[i] = coin.Transaction{Sigs: make([]cipher.Sig, ni), In: make([]cipher.SHA256, ni), Out: make([]coin.TransactionOutput, 1+r.Intn(6))}
+		}
+		if k > 0 && r.Chance(6) {
+			txns[r.Intn(k)] = big
+		}
+		sizes := make([]string, k)
+		sizesJ := make([]string, k)
+		var cum []uint64
+		tot := uint64(0)
+		for i := range txns {
+			s, err := txns[i].Size()
+			cls := ErrClass(err, c31Sentinels)
+			sizes[i] = Tuple(Z(uint64(s)), OptErr(cls))
+			sizesJ[i] = fmt.Sprintf("%d/%s", s, cls)
+			tot += uint64(s)
+			cum = append(cum, tot)
+		}
+		var limit uint32
+		switch r.Intn(6) {
+		case 0:
+			limit = uint32(r.U64Edge())
+		case 1:
+			limit = uint32(r.Intn(4))
+		default: // a cumulative size +-1
+			if k > 0 {
+				limit = uint32(cum[r.Intn(k)] + uint64(r.Intn(3)) - 1)
+			}
+		}
+		var kept coin.Transactions
+		var err error
+		p := Guard(func() { kept, err = txns.TruncateBytesTo(limit) })
+		cls := ErrClass(err, c31Sentinels)
+		cases = append(cases, Tuple(List(sizes), Z(uint64(limit)), ResZE(p, Z(uint64(len(kept))), cls)))
+		caseJSON["l_trunc"] = append(caseJSON["l_trunc"], map[string]interface{}{
+			"sizes(size/err)": strings.Join(sizesJ, " "), "limit": limit, "kept": len(kept), "err": cls, "panic": p})
+		o.Count(fmt.Sprint("trunc", sizesJ, limit), k > 0)
+		hist.Add(fmt.Sprintf("trunc:txns=%d kept=%d err=%v", k, len(kept), err != nil))
+	}
+	o.Def("cases_trunc", "list (Z * error) * Z * res (Z * error)", cases)
 }
